@@ -170,13 +170,19 @@ class C02(Check):
             mine = oracles.final_outcome(ix.w)
             if mine[0] in ("SUCCEEDED", "FAILED") and gf[0] in ("SUCCEEDED", "FAILED") and tuple(mine) != tuple(gf):
                 cls = "final-outcome-changed"
-                try:
-                    import json as _json
-                    if mine[0] == gf[0] == "SUCCEEDED" and oracles.normalise_wfcond_caught(_json.loads(mine[1])) == \
-                            oracles.normalise_wfcond_caught(_json.loads(gf[1])):
+                # known finding KF-C02-wfcond-exception-class: only for programs in which a wait_for_condition check
+                # function raises, and only if the outcomes are equal once exception class names are blanked
+                import json as _json
+                has_failing_check = any(st["op"] == "wfcond" and any(a["do"] == "raise" for a in st["check"]["attempts"])
+                                        for st in oracles.statements(cfg["program"]).values())
+                if has_failing_check and mine[0] == gf[0]:
+                    def blank(t):
+                        s_ = _json.dumps(t)
+                        for name in sorted(gen.USER_ERRS + ["CallableRuntimeError"], key=len, reverse=True):
+                            s_ = s_.replace(name, "*")
+                        return s_
+                    if blank(list(mine)) == blank(list(gf)):
                         cls = "final-outcome-changed-wfcond-exception-class"
-                except (TypeError, ValueError):
-                    pass
                 vs.append(oracles.V("C02", cls, f"fault-free run ended {str(gf)[:200]} but with faults "
                                     f"{cfg['faults']} it ended {str(mine)[:200]}"))
         return vs
